@@ -60,3 +60,7 @@ struct columns {
 };
 }
 double unit_control_columns(int n) { verif_control::columns c; c.rebuild(n); c.rebuild(n + 1); return c.q[0]; }
+
+// instantiation only: product of rectangular static matrices with three distinct extents (C16 static-product-extents)
+#include <amgcl/value_type/static_matrix.hpp>
+amgcl::static_matrix<double, 2, 4> unit_rect_product(const amgcl::static_matrix<double, 2, 3> &a, const amgcl::static_matrix<double, 3, 4> &b) { return a * b; }
